@@ -87,20 +87,27 @@ pub trait ParseAttribute: Sized {
 }
 
 fn parse_attr<T: ParseAttribute>(attr: &syn::Attribute, target: &mut T) -> Result<()> {
-    let mut errors = Error::accumulator();
     match &attr.meta {
         syn::Meta::List(data) => {
-            for item in NestedMeta::parse_meta_list(data.tokens.clone())? {
+            // Parse before creating the accumulator, so that a syntax error does not
+            // leave an unfinished accumulator behind.
+            let items = NestedMeta::parse_meta_list(data.tokens.clone())?;
+            let mut errors = Error::accumulator();
+
+            for item in items {
                 if let NestedMeta::Meta(ref mi) = item {
                     errors.handle(target.parse_nested(mi));
                 } else {
-                    panic!("Wasn't able to parse: `{:?}`", item);
+                    errors.push(Error::unsupported_format("literal").with_span(&item));
                 }
             }
 
             errors.finish()
         }
-        item => panic!("Wasn't able to parse: `{:?}`", item),
+        item @ syn::Meta::Path(_) => Err(Error::unsupported_format("word").with_span(item)),
+        item @ syn::Meta::NameValue(_) => {
+            Err(Error::unsupported_format("name-value").with_span(item))
+        }
     }
 }
 
